@@ -438,6 +438,11 @@ func opSig(op DOp) string { return op.K }
 var caseOut *lib.CaseWriter
 
 func runCase(c Case, o lib.Opts, res *lib.Result, self string) {
+	defer res.Recover(c)
+	runCaseRaw(c, o, res, self)
+}
+
+func runCaseRaw(c Case, o lib.Opts, res *lib.Result, self string) {
 	abs, _ := filepath.Abs(o.Out)
 	work := filepath.Join(abs, "c07work")
 	_ = os.RemoveAll(work)
